@@ -5,10 +5,25 @@ wt, sid, prop, caught = sys.argv[1:5]
 needs = " ".join(sys.argv[5:])
 dst = os.path.join("/verif/seeded", sid)
 os.makedirs(dst, exist_ok=True)
-for f in os.listdir(os.path.join(wt, "_seed")):
-    src = os.path.join(wt, "_seed", f)
-    if os.path.isfile(src) and not f == "demo" and os.path.getsize(src) < 400000:
-        shutil.copy(src, os.path.join(dst, f))
+def _is_binary(path):
+    try:
+        with open(path, "rb") as fh:
+            return fh.read(4) == b"\x7fELF"
+    except OSError:
+        return True
+for root, dirs, files in os.walk(os.path.join(wt, "_seed")):
+    rel = os.path.relpath(root, os.path.join(wt, "_seed"))
+    if rel.count(os.sep) > 1:
+        dirs[:] = []
+        continue
+    for f in files:
+        src = os.path.join(root, f)
+        # sources, notes, probes and logs; no executables, nothing large
+        if os.path.islink(src) or os.path.getsize(src) >= 400000 or _is_binary(src) or f.endswith((".o", ".a")):
+            continue
+        d2 = dst if rel == "." else os.path.join(dst, rel)
+        os.makedirs(d2, exist_ok=True)
+        shutil.copy(src, os.path.join(d2, f))
 meta = {"id": sid, "breaks_property": prop, "needs_to_manifest": needs,
         "confirmed": {"how": "tools/seedconfirm.sh <scratch worktree>: build with patch, pinned tests "
                              "(algorithmTest, eccTest, rsaTest, hmacTest), demo with and without the patch",
